@@ -719,4 +719,36 @@ V("c04-roundtrip-iv-from-tag-segment", "C04", "break", "R04.7", "extract_compact
   "rfc7516/compact.py", "        \"iv\": urlsafe_b64decode(iv_segment),", "        \"iv\": urlsafe_b64decode(tag_segment),")
 V("c04-roundtrip-tag-not-encoded", "C04", "break", "R04.7", "perform_encrypt stores the raw tag as the encoded segment",
   "rfc7516/message.py", "    obj.base64_segments[\"tag\"] = urlsafe_b64encode(tag)", "    obj.base64_segments[\"tag\"] = tag")
+# ------------------------------------------------------------------------------------------------ rules added after the fourth seed batch
+V("c01-class-level-segments", "C01", "break", "R01.8", "CompactSignature.segments becomes a class-level dict shared by all tokens",
+  "rfc7515/model.py", "    def __init__(self, protected: Header, payload: bytes):\n        self.protected = protected\n        self.payload = payload\n        self.segments: SegmentsDict = {}",
+  "    segments: SegmentsDict = {}\n\n    def __init__(self, protected: Header, payload: bytes):\n        self.protected = protected\n        self.payload = payload")
+V("c20-class-level-segments", "C20", "break", "R20.1", "CompactSignature.segments becomes a class-level dict shared by all tokens",
+  "rfc7515/model.py", "    def __init__(self, protected: Header, payload: bytes):\n        self.protected = protected\n        self.payload = payload\n        self.segments: SegmentsDict = {}",
+  "    segments: SegmentsDict = {}\n\n    def __init__(self, protected: Header, payload: bytes):\n        self.protected = protected\n        self.payload = payload")
+V("c20-registry-aliases-default-table", "C20", "break", "R20.1", "JWSRegistry.header_registry aliases the class-level default table and is then updated",
+  "rfc7515/registry.py", "        self.header_registry: HeaderRegistryDict = {}\n        self.header_registry.update(self.default_header_registry)", "        self.header_registry: HeaderRegistryDict = self.default_header_registry")
+V2("c20-kid-cached-property", "C20", "break", "R20.6", "BaseKey.kid becomes a cached_property (goes stale after ensure_kid)",
+   [("rfc7517/models.py", "from __future__ import annotations\n", "from __future__ import annotations\nfrom functools import cached_property\n"),
+    ("rfc7517/models.py", "    @property\n    def kid(self) -> str | None:", "    @cached_property\n    def kid(self) -> str | None:")])
+V("c04-per-recipient-handler-narrowed", "C04", "break", "R04.8", "the per-recipient handler no longer catches the base error",
+  "rfc7516/message.py", "        except (AssertionError, JoseError) as error:", "        except (AssertionError, DecodeError) as error:")
+V("c05-gate-inside-swallowing-try", "C05", "break", "R05.9", "get_alg moved inside the per-recipient try whose handler skips errors in lenient mode",
+  "rfc7516/message.py", "        alg = registry.get_alg(headers[\"alg\"])\n        try:\n            cek = decrypt_recipient(alg, enc, recipient, tag)", "        try:\n            alg = registry.get_alg(headers[\"alg\"])\n            cek = decrypt_recipient(alg, enc, recipient, tag)")
+V("c05-registry-rebuilt-without-allow-list", "C05", "break", "R05.10", "rfc7797 rebuilds a given registry from `algorithms` (None) - the caller's allow-list is dropped",
+  "rfc7797/compact.py", "    if registry is None:\n        registry = JWSRegistry(algorithms=algorithms)\n\n    if protected[\"b64\"] is True:",
+  "    if registry is None:\n        registry = JWSRegistry(algorithms=algorithms)\n    else:\n        registry = JWSRegistry(registry.header_registry, algorithms, registry.strict_check_header)\n\n    if protected[\"b64\"] is True:")
+V("c14-normalize-key-unpacks-single-key-set", "C14", "break", "R14.10", "_normalize_key returns the sole key of a one-key set",
+  "jwk.py", "        return OctKey.import_key(key)\n    return key", "        return OctKey.import_key(key)\n    if isinstance(key, KeySet) and len(key.keys) == 1:\n        return key.keys[0]\n    return key")
+V("c06-normalize-key-builds-oct-key-directly", "C06", "break", "R06.6", "raw key text wrapped as OctKey(raw, raw): the unsafe-text warning is never reached",
+  "jwk.py", "        return OctKey.import_key(key)\n    return key", "        return OctKey(key if isinstance(key, bytes) else key.encode(), key)\n    return key")
+V("c08-z-resized", "C08", "break", "R08.9", "ECDH output re-sized to curve_key_size // 8 (drops an octet on P-521)",
+  "rfc7518/ec_key.py", "            return self.private_key.exchange(ECDH(), pubkey)", "            z = self.private_key.exchange(ECDH(), pubkey)\n            size = self.curve_key_size // 8\n            return z[-size:].rjust(size, b\"\\x00\")")
+V("c08-unprotected-general-only", "C08", "break", "R08.10", "shared unprotected header merged for the general serialization only",
+  "rfc7516/models.py", "        if isinstance(self.__parent, BaseJSONEncryption) and self.__parent.unprotected:", "        if isinstance(self.__parent, GeneralJSONEncryption) and self.__parent.unprotected:")
+V("c13-jwk-with-parameters-goes-lazy", "C13", "break", "R13.7", "a JWK given together with parameters is rebuilt lazily: its own kid / use / alg are dropped",
+  "rfc7517/models.py", "        if isinstance(original_value, dict):\n            if parameters is not None:\n                data = {**original_value, **parameters, \"kty\": self.key_type}\n            else:\n                data = {**original_value, \"kty\": self.key_type}",
+  "        if isinstance(original_value, dict) and parameters is None:\n            if parameters is not None:\n                data = {**original_value, **parameters, \"kty\": self.key_type}\n            else:\n                data = {**original_value, \"kty\": self.key_type}")
+V("c19-dumps-non-ascii", "C19", "break", "R19.5", "json_b64encode emits raw non-ASCII and then encodes as ASCII",
+  "util.py", "        text = json.dumps(text, ensure_ascii=True, separators=(\",\", \":\"))", "        text = json.dumps(text, ensure_ascii=False, separators=(\",\", \":\"))")
 
